@@ -107,6 +107,10 @@ pub fn check_status(case: &PosCase, ctx: &mut Ctx) -> Result<(), String> {
     let p = Pos::from_fen(&case.fen).ok_or_else(|| format!("HARNESS: bad case fen {}", case.fen))?;
     let mut b = eng::board_from_pos(&p);
     compare_checks(&b, &p, &format!("in {}", case.fen))?;
+    let pseudo_now = b.generate_pseudo_legal_moves();
+    if b.is_any_move_legal(&pseudo_now) == p.legal_moves().is_empty() {
+        return Err(format!("is_any_move_legal = {} in {} but the rules give {} legal moves", b.is_any_move_legal(&pseudo_now), case.fen, p.legal_moves().len()));
+    }
     terminal_checks(&mut b, &p, &format!("in {}", case.fen), ctx)?;
     ctx.evals(1);
     if attacker_classes(&p, p.turn, ctx) > 0 {
@@ -122,6 +126,11 @@ pub fn check_status(case: &PosCase, ctx: &mut Ctx) -> Result<(), String> {
             return Err(format!("engine emits {u} in {}, which is not even pseudo-legal by the rules (see C01)", case.fen));
         }
         let after = p.apply(m);
+        // the helper every caller uses for "does this move leave my own king attacked?"
+        let legal_by_rules = !after.in_check(p.turn);
+        if b.is_move_legal(*mv) != legal_by_rules {
+            return Err(format!("is_move_legal({u}) = {} in {}, but the move {} the mover's king attacked", !legal_by_rules, case.fen, if legal_by_rules { "does not leave" } else { "leaves" }));
+        }
         b.make(*mv);
         let what = format!("after {u} in {}", case.fen);
         let r = compare_checks(&b, &after, &what);
